@@ -11,7 +11,8 @@ import simcorr
 import simgen
 from framework import fresh_import, load_known, REPO, VERIF, LeanLock
 from indep import z80bus
-from simcheck import single_step, build_impls, t_bias
+import simcheck
+from simcheck import single_step, build_impls, t_bias, guarded
 
 PROPS = 'SkoolVerif.Props.C19'
 BIT_HL = {0x46 + 8 * k for k in range(8)}
@@ -155,12 +156,19 @@ def cmio_vs_plain(chk, impls):
                         0xA2: (0x3F, 0x00, 0x80, 0xFF, 0xBF), 0xAA: (0x3F, 0x00, 0x80, 0xFF, 0xBF),
                         0xB2: (0x3F, 0x00, 0x80, 0xFF, 0xBF), 0xBA: (0x3F, 0x00, 0x80, 0xFF, 0xBF)}.get(op, ()) if tbl == 'ED' else ()
             nk = chk.scale(3, 30)
-            for k in range(nk + len(directed)):
+            # HALT / LD A,I / LD A,R compare the clock with the end of the interrupt window: the instruction ending just before / on /
+            # just after it (frame position outside the display: no delay, so the contended simulator must agree with the plain one)
+            wstates = list(simcheck.window_states(rng, tbl, op))
+            for k in range(nk + len(directed) + len(wstates)):
                 unc = k % 3 == 2 or k >= nk
-                st = (uncontended_state(rng, tbl, op, directed[k - nk] if k >= nk else None) if unc
-                      else simcorr.rand_state(rng, tbl, op, t_bias=t_bias))
-                if k >= nk:
-                    st[1][1] = rng.choice((14336 + 224 * rng.randrange(1, 190) + rng.randrange(0, 120), 14335 + rng.randrange(0, 40000)))
+                if k >= nk + len(directed):
+                    st = wstates[k - nk - len(directed)]
+                    unc = False
+                else:
+                    st = (uncontended_state(rng, tbl, op, directed[k - nk] if k >= nk else None) if unc
+                          else simcorr.rand_state(rng, tbl, op, t_bias=t_bias))
+                    if k >= nk:
+                        st[1][1] = rng.choice((14336 + 224 * rng.randrange(1, 190) + rng.randrange(0, 120), 14335 + rng.randrange(0, 40000)))
                 st[1][4] = 0                              # not halted (HALT state is handled in C10)
                 if is_c:
                     st[4][0] = 1 if (st[4][0] or st[4][1] or st[4][2]) else 0
@@ -168,6 +176,10 @@ def cmio_vs_plain(chk, impls):
                 b = wr[cont].step(*st).split(';')
                 chk.case(f'cmio-vs-plain:{plain}:{"unc" if unc else "any"}', (plain, tbl, op, tuple(st[0]), tuple(st[1])),
                          {'pair': [plain, cont], 'slot': f'{tbl}:{op:02X}', 't': st[1][1]} if op == 0x34 and k == 0 else None)
+                if len(a) == 6 and len(b) != 6:
+                    # the contended simulator raised where the plain one did not
+                    chk.violation(f'exception:{cont}:{tbl}:{op:02X}', f'{cont} slot {tbl} {op:02X}: {";".join(b)[:200]} (the plain simulator executes the same state)',
+                                  {'kind': 'pair', 'pair': [plain, cont], 'state': [st[0], st[1], {str(k2): v for k2, v in st[2].items()}, st[3], st[4]], 'slot': [tbl, op]})
                 if len(a) != 6 or len(b) != 6:
                     continue
                 ra, rb = list(map(int, a[0].split())), list(map(int, b[0].split()))
@@ -383,6 +395,9 @@ def bus_delay_oracle(chk, classes, pagingtracer, simutils, lean_ok=True, only=No
     # banks 5 and 2 are also mapped at 0x4000 / 0x8000: paged at 0xC000 they alias the state's own cells, so they are not used here
     configs = [('48K', 0), ('128K', 0x20), ('128K', 0x21)] + ([('128K', 0x27), ('128K', 0x24), ('128K', 0x23)] if chk.thorough else [])
     n = chk.scale(3, 40)
+    sus = set()
+    if chk.breaks and not only:
+        sus = set(simcheck.suspect_slots(chk)) | set(simcheck.c_suspect_slots(chk))
     otir_diff = []
     lean_ops, lean_want = [], []
     for machine, o7 in configs:
@@ -391,7 +406,10 @@ def bus_delay_oracle(chk, classes, pagingtracer, simutils, lean_ok=True, only=No
             regs, fields, mem = only['state']
             if (machine, o7) != tuple(only['config']):
                 continue
-            got, want, _, cyc, _ = bus_case(runners, only['impl'], machine, o7, regs, fields, {int(k): v for k, v in mem.items()})
+            try:
+                got, want, _, cyc, _ = bus_case(runners, only['impl'], machine, o7, regs, fields, {int(k): v for k, v in mem.items()})
+            except Exception:
+                return True
             return got != want
         first, line, frame = z80bus.LAYOUT[machine]
         for tbl, op in simcorr.all_slots():
@@ -404,9 +422,42 @@ def bus_delay_oracle(chk, classes, pagingtracer, simutils, lean_ok=True, only=No
                 for hi in HI_BOUND if (chk.thorough or op in BLOCK_IO) else HI_BOUND[2::3]:
                     for lo in (0xFE, 0xFF):
                         states.append(bus_state(rng, tbl, op, machine, directed=(hi, lo)))
+                # the port address exactly on a region boundary (0x4000, 0x7FFF, 0x8000, 0xBFFF, 0xC000, 0xFFFF, ...; for the
+                # block instructions B is the value before / after the decrement), both parities
+                for hi, lo in ((0x40, 0x00), (0x40, 0x01), (0x7F, 0xFF), (0x7F, 0xFE), (0x80, 0x00), (0x80, 0x01), (0xBF, 0xFF), (0xBF, 0xFE),
+                               (0xC0, 0x00), (0xC0, 0x01), (0xFF, 0xFF), (0xFF, 0xFE), (0x3F, 0xFF), (0x3F, 0xFE), (0x00, 0x00), (0x00, 0x01),
+                               (0x41, 0x00), (0x81, 0x00), (0xC1, 0x00), (0x01, 0x00)):
+                    states.append(bus_state(rng, tbl, op, machine, directed=(hi, lo)))
+            if (tbl, op) == ('MAIN', 0x76):
+                # HALT: while halted the address on the bus is PC+1 (as SkoolKit models it): PC on the last cell of each region, so that
+                # PC and PC+1 are contended differently, halted and not, every phase of the pattern
+                for pc_ in (0x3FFF, 0x7FFF, 0xBFFF, 0xFFFF, 0x7FFE, 0xBFFE):
+                    for halted_ in (0, 1):
+                        for ph in range(8):
+                            regs_, fields_, mem_ = sweep_state(rng, tbl, op, machine, ph, 0x4000)
+                            mem_ = {pc_: 0x76}
+                            fields_[0], fields_[4] = pc_, halted_
+                            states.append((regs_, fields_, mem_))
+            if (tbl, op) in sus:
+                # directed search after a broken proof / translation tie: the slots whose closure / C handler changed
+                k = 12 if len(sus) > 64 else 60
+                states += [bus_state(rng, tbl, op, machine) for _ in range(k)]
+                states += [sweep_state(rng, tbl, op, machine, ph, base) for ph in range(8) for base in ((0x4000, 0xC000) if machine == '128K' and o7 & 1 else (0x4000,))
+                           for _ in range(1 if len(sus) > 64 else 3)]
+                for st3 in simcheck.edge_states(rng, tbl, op, frame=frame, int_active=32, light=True):
+                    regs_, fields_, mem_ = list(st3[0]), list(st3[1]), dict(st3[2])
+                    fields_[1] = frame_positions(rng, machine) if rng.randrange(3) else fields_[1]
+                    fields_[4] = fields_[4] if (tbl, op) == ('MAIN', 0x76) else 0
+                    states.append((regs_, fields_, mem_))
             for regs, fields, mem in states:
                 for impl in ('py', 'c'):
-                    got, want, want_doc, cyc, dur = bus_case(runners, impl, machine, o7, regs, fields, mem)
+                    try:
+                        got, want, want_doc, cyc, dur = bus_case(runners, impl, machine, o7, regs, fields, mem)
+                    except Exception as e:       # the code under test raised on an in-range state
+                        chk.violation(f'exception:{impl}:{tbl}:{op:02X}', f'{impl} simulators, {machine} (7ffd={o7:#x}) slot {tbl} {op:02X} at T={fields[1]} PC={fields[0]:#06x}: {type(e).__name__}: {e}',
+                                      {'kind': 'bus', 'impl': impl, 'config': [machine, o7], 'state': [regs, fields, {str(k): v for k, v in mem.items()}], 'slot': [tbl, op]})
+                        runners = {name: BusRunner(cls[name], machine, o7, pagingtracer, simutils) for name in ('py-plain', 'py-cmio', 'c-plain', 'c-cmio')}
+                        continue
                     chk.case(f'bus-delay:{impl}:{machine}', (impl, machine, o7, tbl, op, tuple(regs), tuple(fields)),
                              {'impl': impl + '-cmio', 'machine': machine, 'o7ffd': o7, 'slot': f'{tbl}:{op:02X}', 't': fields[1],
                               'cycles': [list(c) for c in cyc], 'delay': want} if (op, impl) == (0x34, 'py') and tbl == 'MAIN' and want else None)
@@ -476,15 +527,15 @@ def run(chk):
     # translated from c/csimulator.c on this run
     import cgencheck
     cgencheck.c_corollaries(chk, 'SkoolVerif.Props.C19C', bool(ok))
-    delay_tables(chk, cmio)
-    contend_funcs(chk, cmio, pagingtracer)
-    config_tie(chk, cmio, pagingtracer, simutils)
+    guarded(chk, 'delay-tables', delay_tables, chk, cmio)
+    guarded(chk, 'contend-functions', contend_funcs, chk, cmio, pagingtracer)
+    guarded(chk, 'config', config_tie, chk, cmio, pagingtracer, simutils)
     impls, classes = build_impls(chk)
-    nop_oracle(chk, classes, pagingtracer, simutils)
+    guarded(chk, 'nop-oracle', nop_oracle, chk, classes, pagingtracer, simutils)
     if gen_ok and ok:
-        single_step(chk, [i for i in impls if 'cmio' in i[0]])
-    cmio_vs_plain(chk, impls)
-    bus_delay_oracle(chk, classes, pagingtracer, simutils, lean_ok=bool(gen_ok and ok))
+        guarded(chk, 'single-step', single_step, chk, [i for i in impls if 'cmio' in i[0]])
+    guarded(chk, 'cmio-vs-plain', cmio_vs_plain, chk, impls)
+    guarded(chk, 'bus-delay', bus_delay_oracle, chk, classes, pagingtracer, simutils, lean_ok=bool(gen_ok and ok))
     chk.exhaustive = False
 
 
@@ -498,6 +549,10 @@ def replay(chk, data):
             bus_delay_oracle(chk, classes, pagingtracer, simutils, lean_ok=False)
             return len(chk.violations) > n0
         return bus_delay_oracle(chk, classes, pagingtracer, simutils, lean_ok=False, only=data)
+    if data['kind'] == 'group-exception':
+        n0 = len(chk.violations)
+        run(chk)
+        return len(chk.violations) > n0
     if data['kind'] == 'nop':
         (simutils,) = fresh_import('skoolkit.simutils')
         cmio, pagingtracer = fresh_import('skoolkit.cmiosimulator', 'skoolkit.pagingtracer')
